@@ -29,6 +29,32 @@ type Job struct {
 	Replay   string  `json:"replay,omitempty"`
 	Budget   int     `json:"budget,omitempty"` // shrink re-executions
 	HashOnly bool    `json:"hash_only,omitempty"`
+	// Known: signature patterns ('*' wildcards) of the recorded findings of this property. A worker keeps one violation
+	// per recorded PATTERN and, separately, up to maxNewSignatures distinct signatures that match none: the signature
+	// families of recorded findings (oracle x detail x tag combination) must never use up the room for new violations.
+	Known []string `json:"known,omitempty"`
+}
+
+const maxNewSignatures = 40
+
+// WildMatch: '*' matches any (possibly empty) substring; everything else is literal.
+func WildMatch(pat, s string) bool {
+	parts := strings.Split(pat, "*")
+	if len(parts) == 1 {
+		return pat == s
+	}
+	if !strings.HasPrefix(s, parts[0]) {
+		return false
+	}
+	s = s[len(parts[0]):]
+	for i := 1; i < len(parts)-1; i++ {
+		j := strings.Index(s, parts[i])
+		if j < 0 {
+			return false
+		}
+		s = s[j+len(parts[i]):]
+	}
+	return strings.HasSuffix(s, parts[len(parts)-1])
 }
 
 // FoundViolation pairs a violation with the (completed) plan that produced it.
@@ -153,6 +179,7 @@ func runBatch(t *testing.T, eng Engine, job *Job) *BatchResult {
 	}
 	hashes := make([]uint64, 0, 1024)
 	seenSig := map[string]bool{}
+	newSigs := 0
 	if job.HashOnly {
 		res.RunHashes = map[string]string{}
 	}
@@ -192,8 +219,18 @@ func runBatch(t *testing.T, eng Engine, job *Job) *BatchResult {
 		}
 		if r.Violation != nil {
 			res.NViolations++
-			if !seenSig[r.Violation.Signature] && len(res.Violations) < 8 {
-				seenSig[r.Violation.Signature] = true
+			key, isKnown := r.Violation.Signature, false
+			for _, pat := range job.Known {
+				if WildMatch(pat, r.Violation.Signature) {
+					key, isKnown = "known:"+pat, true
+					break
+				}
+			}
+			if !seenSig[key] && (isKnown || newSigs < maxNewSignatures) {
+				seenSig[key] = true
+				if !isKnown {
+					newSigs++
+				}
 				p.Generative = false
 				res.Violations = append(res.Violations, &FoundViolation{Violation: r.Violation, Plan: p})
 			}
